@@ -2,6 +2,7 @@ From Coq Require Import ZArith String List Bool.
 From Grpchan Require Import lib.Cases lib.Hex.
 From Grpchan Require Export corr.Script.
 From Grpchan Require corr.Stream.
+From Grpchan Require model.UnaryMeta.   (* case terms name UnaryMeta.agrees *)
 Import ListNotations.
 Open Scope Z_scope.
 
